@@ -213,7 +213,16 @@ class ClipSim:
             if rng.random() > 0.3:
                 return []
             if opname in ('apply', 'clip', 'reclip'):
-                seam = rng.choice(['write', 'write', 'write', 'mfopen'])
+                seam = rng.choice(['write', 'write', 'write', 'mfopen', 'read', 'read'])
+                if seam == 'read':
+                    # the source is read while it is clipped: a lazily opened file (each variable, each connectivity table)
+                    # or dask chunks; in-memory worlds never cross this seam
+                    if world['materialise'] == 'chunked' and rng.random() < 0.5:
+                        return [{'seam': 'dask', 'nth': rng.choice([1, 1, 2, 3, 5]), 'kind': rng.choice(['EIO', 'EIO', 'crash'])}]
+                    f = {'seam': 'read', 'nth': rng.choice([1, 1, 2, 3, 4, 6, 9]), 'kind': rng.choice(['EIO', 'EIO', 'crash'])}
+                    if rng.random() < 0.3:
+                        f['persistent'] = True
+                    return [f]
                 if seam == 'write':
                     nth = rng.choice([1, nw, rng.randint(1, max(1, nw)), 2])
                     f = {'seam': 'write', 'nth': nth, 'kind': rng.choice(['ENOSPC', 'EIO', 'partial', 'crash', 'crash_after'])}
@@ -531,7 +540,8 @@ class ClipSim:
                                        'only_vars': op.get('only_vars'), 'pre': obs.get('pre'), 'work_dropped': False, 'space': None, 'input_space': None}
             if obs.get('ds_after_fault') is not None:
                 out.stats['probe.result_returned_despite_fault_judged'] += 1
-                self._judge_result(out, world, model['res'][op['res']], obs['ds_after_fault'], f'{op["res"]} (returned although a fault was injected)', judged)
+                self._judge_result(out, world, model['res'][op['res']], obs['ds_after_fault'], f'{op["res"]} (returned although a fault was injected)', judged,
+                                   raw=obs.get('raw_after_fault'))
             elif obs.get('ds_after_fault_error') is not None:
                 e = obs['ds_after_fault_error']
                 out.violate('C08', 'result-after-fault-unloadable', e.get('frame'),
@@ -739,12 +749,27 @@ def _clip_lifetime(ctx, plan, li, scratch, acked_files=()):
         if variant not in datasets:
             datasets[variant] = common.open_world(world, scratch, variant, raw={'to_netcdf': raw['to_netcdf'], 'open_dataset': raw['open_dataset']},
                                                   tag='input')
-            # the geometry as the dataset came: a private copy taken before emsarray has looked at anything
+            # the geometry as the dataset came: a private copy read through a second, independent handle, so that the
+            # dataset under test stays exactly as lazy as it was opened (nothing of it is in memory before emsarray asks)
             ds_ = datasets[variant]
-            geom_base[variant] = {n: observe.observe_variable(ds_.variables[n]) for n in world.geometry_names() if n in ds_.variables}
+            if world.spec.get('materialise', 'memory') == 'memory':
+                ref_ = ds_
+            else:
+                ref_ = common.open_world(world, scratch, variant, raw={'to_netcdf': raw['to_netcdf'], 'open_dataset': raw['open_dataset']}, tag='input')
+            geom_base[variant] = {n: observe.observe_variable(ref_.variables[n]) for n in world.geometry_names() if n in ref_.variables}
             for n, ov_ in geom_base[variant].items():
                 ov_['values'] = numpy.array(ov_['values'], copy=True)
         return datasets[variant]
+
+    def _in_memory_values(var):
+        """The values a variable holds in memory, without making it read anything."""
+        from xarray.core import indexing
+        d = var._data
+        if isinstance(d, numpy.ndarray):
+            return d
+        if isinstance(d, indexing.MemoryCachedArray) and isinstance(d.array, indexing.NumpyIndexingAdapter):
+            return numpy.asarray(d.array.array)
+        return None
 
     def mutated_inputs():
         bad = []
@@ -754,7 +779,9 @@ def _clip_lifetime(ctx, plan, li, scratch, acked_files=()):
                 if n not in ds_.variables:
                     bad.append(n)
                     continue
-                now = numpy.asarray(ds_.variables[n].values)
+                now = _in_memory_values(ds_.variables[n])
+                if now is None:
+                    continue      # still on disk: cannot have been altered
                 if now.shape != ov_['values'].shape or not common.arrays_equal_nan(now, ov_['values']):
                     bad.append(n)
         return sorted(set(bad))
@@ -764,12 +791,18 @@ def _clip_lifetime(ctx, plan, li, scratch, acked_files=()):
             p = os.path.join(scratch, f"lt{op['work_reuse'][0]}-{op['work_reuse'][1]}")
             if os.path.isdir(p) and p not in work_of.values():
                 ctx.emit('probe', name='work_dir_of_earlier_lifetime_reused')
+                import gc
+                gc.collect()      # see below: a failed attempt in this directory may have left unreachable open handles
                 return p
         if op is not None and op.get('work_reuse_same_lifetime'):
             p = os.path.join(scratch, f"lt{li}-{op['work_reuse_same_lifetime']}")
             # only the directory of an attempt that *failed*: a live lazy result still reads (and holds open) its files
             if os.path.isdir(p) and p not in work_of.values():
                 ctx.emit('probe', name='retry_into_work_dir_of_failed_attempt')
+                # the failed call is over and the caller holds nothing of it: whatever it had opened (work files it
+                # was reading when the fault hit) is unreachable and goes away with a collection
+                import gc
+                gc.collect()
                 return p
         p = os.path.join(scratch, f'lt{li}-{name}')
         os.makedirs(p, exist_ok=True)
@@ -913,6 +946,13 @@ def _clip_lifetime(ctx, plan, li, scratch, acked_files=()):
             # the call reported success although a fault was injected into it: what it returned is judged strictly
             try:
                 obs['ds_after_fault'] = observe.observe_dataset(results[op['res']], polygons=True)
+                # and what it looks like once written out (on-disk types of the connectivity tables)
+                tmp_ = os.path.join(scratch, f'after_fault_{k}.nc')
+                try:
+                    results[op['res']].ems.to_netcdf(tmp_)
+                    obs['raw_after_fault'] = _raw_file_info(tmp_)
+                except Exception:
+                    pass
             except Exception as e:
                 obs['ds_after_fault_error'] = observe.exc_info(e)
         ctx.observe(f'op{k}', obs)
